@@ -522,6 +522,25 @@ def _r_drv(ck, world, table, strict_order: bool = False) -> None:
 
 # ------------------------------------------------------------------------------ R-NARY
 def _r_nary(ck, world, table) -> None:
+    """R-NARY: the n-ary rules (identities dropped, scalars merged and relocated) keep the product.  Decided by executing the
+    driver abstractly on chains of opaque operators, identities and symbolic scalars (C07.N8: operators kept in order, scalar
+    = the product of the given ones); the clauses on the written form of the two rules are kept when they can follow the code."""
+    from types import SimpleNamespace
+
+    from . import c07
+
+    start = len(ck.obs)
+    sub = type(ck)(ck.pid)
+    decided = c07._normal_form_by_execution(SimpleNamespace(world=world, table=table), sub, table.rules(), map_only=True)
+    for o in sub.obs:
+        o.rule = f'{ck.pid}.R-NARY'
+        ck.obs.append(o)
+    _r_nary_written(ck, world, table)
+    if decided:
+        ck.obs[:] = [o for i, o in enumerate(ck.obs) if not (i >= start and o.rule.endswith('R-NARY') and o.status == 'incomplete' and 'normal form by execution' not in o.construct)]
+
+
+def _r_nary_written(ck, world, table) -> None:
     ident = table.get(f'{RULES}.IdentityRule')
     ap = table.resolve(ident, 'apply')
     assert ap is not None
